@@ -15,6 +15,8 @@ SEQ = ("List", "PoolList")
 def run(prog, chk):
     chk.extra["explanation"] = EXPLANATION
     wit.members_instantiate(prog, chk, "C03.a", ("List", "Array", "PoolList"))
+    if chk.viol:
+        return   # a member does not instantiate: the path rules have no complete instantiation to look at
     c04_alias.array_rules(prog, chk, "C03.b")
     C.link_idiom(prog, chk, "C03.c1", SEQ)
     C.unlink_idiom(prog, chk, "C03.c2", SEQ)
